@@ -10,6 +10,7 @@
 //   dgram <label> <from> <to>                           -> address <label> (source reported to <to>)
 //   acceptor <name> <plain|async> <bindlabel>           -> address <name>.l
 //   connect <c> <plain|buf|async> <acceptor>            -> addresses <c>.cl <c>.cp <c>.rep <c>.sl <c>.sp
+//   connectvia <c> <plain|buf|async> <acceptor> <hostlabel>   like connect, but to Host(<hostlabel>):Port(<acceptor>)
 //   close <c>                                           -> address <c>.disc (async client: disconnect handler)
 //   cmp <l1> <l2> | cmpall | maps
 #include "h/common.h"
@@ -261,7 +262,7 @@ void HandleOp(Scen &sc, std::vector<std::string> const &w)
     }
     sc.Report(w[1] + ".l", a->Local());
     sc.accs[w[1]] = std::move(a);
-  } else if(w[0] == "connect" && w.size() == 4) {
+  } else if((w[0] == "connect" && w.size() == 4) || (w[0] == "connectvia" && w.size() == 5)) {
     auto ai = sc.accs.find(w[3]);
     if(ai == sc.accs.end()) { har::obs("skip"); return; }
     auto &acc = *ai->second;
@@ -269,6 +270,12 @@ void HandleOp(Scen &sc, std::vector<std::string> const &w)
     c->kind = w[2];
     auto *raw = c.get();
     auto dst = acc.Local();
+    if(w[0] == "connectvia") {
+      // reach the acceptor through another of the host's addresses (e.g. IPv4 loopback -> dual-stack wildcard listener)
+      auto via = sc.Find(w[4]);
+      if(!via) { har::obs("skip"); return; }
+      dst = Address(via->Host(), std::to_string(dst.Port()));
+    }
     if(w[2] == "plain") c->plain.emplace(dst);
     else if(w[2] == "buf") c->buf.emplace(SocketTcp(dst), 0U, 1500U);
     else c->async.emplace(SocketTcpBuffered(SocketTcp(dst), 0U, 1500U), sc.driver,
